@@ -34,9 +34,67 @@ def run(chk, F, tier):
                     units.add("scalar")
                 if "utf16" in n:
                     units.add("utf16")
+    # helpers of the column functions inside the line-index module, and byte-level counting
+    MOD = "emmylua_parser::text::line_index::"
+    scope = set()
+    todo = [LI + "::" + fn for fn in COL_FUNS if LI + "::" + fn in F.bodies]
+    while todo:
+        x = todo.pop()
+        if x in scope or x not in F.bodies:
+            continue
+        scope.add(x)
+        todo += [k for k in F.bodies if k.startswith(x + "::{closure")]
+        for bb, c in F.bodies[x].calls():
+            n = name(c)
+            if n.startswith(MOD) and n in F.bodies:
+                todo.append(n)
+    for x in sorted(scope):
+        bd = F.bodies[x]
+        for bb, c in bd.calls():
+            n = name(c)
+            if n.endswith("::chars") or n.endswith("::char_indices") or n.endswith("char::len_utf8") or n.endswith("methods::len_utf8"):
+                units.add("scalar")
+            if "utf16" in n:
+                units.add("utf16")
+            if n.endswith(("::is_char_boundary", "::is_utf8_char_boundary")):
+                units.add("scalar")
+        # a byte predicate `(b as i8) >= K` counts chars only for K = -0x40 (non-continuation bytes)
+        for blk in bd.blocks:
+            for st in blk[1]:
+                if st[0] == "a" and st[2][0] == "bin" and st[2][1] in ("Ge", "Gt", "Lt", "Le"):
+                    ops = st[2][2:4]
+                    ks = [o for o in ops if o[0] == "k" and o[1] == "int"]
+                    casted = any(o[0] in ("c", "m") and bd.local_ty_str(o[1][0]) == "i8" for o in ops)
+                    if ks and casted:
+                        k = ks[0][2]
+                        boundary = (st[2][1] == "Ge" and k == -64) or (st[2][1] == "Gt" and k == -65) or \
+                                   (st[2][1] == "Lt" and k == -64) or (st[2][1] == "Le" and k == -65)   # the negated forms count continuation bytes
+                        units.add("scalar" if boundary else "bytes-by-predicate(i8 %s %d)" % (st[2][1], k))
+    chk.unit("functions implementing the column unit", len(scope))
     chk.floor("LineIndex column functions", nfun, 3)
     declared = set()
     nreg = 0
+    import prov as _prov
+    P = _prov.Prov(F, follow_returns=True, max_depth=24)
+    dynamic = []   # (body, line, labels) of declarations whose value is not a constant encoding
+
+    def classify(b, labels, line):
+        nonconst = []
+        for lab in labels:
+            txt = str(lab[1])
+            if lab[0] in ("CONST", "FN"):
+                if "UTF32" in txt or "utf-32" in txt:
+                    declared.add("scalar")
+                elif "UTF16" in txt or "utf-16" in txt:
+                    declared.add("utf16")
+                elif "UTF8" in txt or "utf-8" in txt:
+                    declared.add("utf8")
+                # other constants (None discriminants, unit) declare nothing
+            else:
+                nonconst.append("%s:%s" % (lab[0], txt.split("::")[-1]))
+        if nonconst:
+            dynamic.append((b, line, sorted(set(nonconst))))
+
     for b in F.bodies.values():
         if b.crate != "emmylua_ls":
             continue
@@ -47,23 +105,45 @@ def run(chk, F, tier):
                 if st[0] == "a" and any(isinstance(e, list) and e[0] == "f" and e[2] == "position_encoding" for e in st[1][1:]):
                     rv = st[2]
                     txt = repr(rv)
+                    if rv[0] == "agg" and rv[3] == "None":
+                        continue
+                    labs = set()
+                    if rv[0] == "use":
+                        labs = P.operand_labels(b, rv[1])
+                    elif rv[0] == "agg":
+                        for op in rv[4]:
+                            labs |= P.operand_labels(b, op)
+                    else:
+                        labs = {("OTHER", txt[:60])}
                     if "UTF32" in txt:
                         declared.add("scalar")
                     elif "UTF16" in txt:
                         declared.add("utf16")
                     elif "UTF8" in txt:
                         declared.add("utf8")
-                    elif "None" in txt:
-                        pass
-                    else:
-                        declared.add("dynamic")
+                    classify(b, labs, st[3] if len(st) > 3 else None)
+            t = blk[2]
+            if t[0] == "call" and any(isinstance(e, list) and e[0] == "f" and e[2] == "position_encoding" for e in t[1]["d"][1:]):
+                callee = name(t[1])
+                if callee in F.bodies:
+                    classify(b, P.labels(F.bodies[callee], 0), t[1]["l"])
+                else:
+                    labs = set()
+                    for a in t[1]["a"]:
+                        labs |= P.operand_labels(b, a)
+                    classify(b, labs or {("CALL", callee)}, t[1]["l"])
+    for b, line, labs in dynamic:
+        chk.violation("R23a", "position-encoding-dynamic",
+                      "the declared positionEncoding is computed from %s, not fixed to the unit the server implements (%s): whenever the "
+                      "computed value differs (e.g. the client's first offered encoding is utf-8) every non-ASCII column is wrong in both "
+                      "directions" % (labs[:4], sorted(units)), b.loc(line), witness={"sources": labs})
     chk.floor("register_capabilities impls", nreg, 20)
     if not declared:
         declared = {"utf16"}  # protocol default when positionEncoding is absent
         how = "absent (protocol default UTF-16)"
     else:
         how = "explicit"
-    chk.check(units and units <= declared or "dynamic" in declared, "R23a", "position-encoding",
+    chk.check(bool(units) and units <= declared, "R23a", "position-encoding:implemented=%s;declared=%s" % ("+".join(sorted(units)), "+".join(sorted(declared))),
               "the server counts `character` in %s units but declares %s (%s): for any line with a character outside the BMP "
               "every position after it is off by one per such character" % (sorted(units), sorted(declared), how),
               F.bodies[LI + "::get_col"].loc() if LI + "::get_col" in F.bodies else None,
